@@ -14,6 +14,18 @@ CLAIMS = {
          "Static necessary conditions of progress: notify after every enabling state change (14 submit paths, completion, every store of Running, limit raised, 'enqueued' announcement, purge); signal/error sends are select-with-default under the worker lock, closed once under the write lock; lock-order graph acyclic, no blocking operation under a lock; the dispatcher re-evaluates running/capacity/pending each iteration and survives step errors; every completion path keeps or retires its node; pool-node ownership typestate. Does not decide sufficiency of the wake-up protocol as a whole.",
          "Trusts go/types, sync.Cond/channel/RWMutex semantics; lock identity is per (type, field).",
          "DESIGN.md §3 C03"),
+ "C04": ("table extraction of the heap comparator over all order types + who-may-call + path rules on the queue implementations",
+         "Decides the finite, structural part of the dispatch order: the heap comparator equals (priority ascending, insertion index ascending) on all order types incl. int64 extremes; heap methods are reached only through container/heap; Enqueue reads-then-increments the tie index once before heap.Push; Chunk.Push/Pop and Queue.Enqueue/Dequeue keep the slot/index/link/advance discipline behind correct full/empty tests; one consumer. It does not decide that these pieces compose to FIFO/heap order for every length.",
+         "Trusts container/heap; int is 64 bit; adapters excluded.",
+         "DESIGN.md §3 C04"),
+ "C05": ("path analysis + who-may-call + job-status table (finite-domain propagation)",
+         "Decides who can release a handle's waiters and in which order: completion order worker function → Finished → Close; WaitGroup/counter releases only in the Close methods; one Add(1) per single-job constructor and consistent batch sizing; every Close implementation x 5 job states follows the reference (ack → compare-and-swap to Closed → one release → response closed); Response stores before it sends. Does not decide interleavings of waiters.",
+         "Trusts sync.WaitGroup; the job table is sequential per job.",
+         "DESIGN.md §3 C05"),
+ "C10": ("atomic check-then-act analysis (interference-mode status propagation) + job-status table + path rules",
+         "Decides the structural part of cancel/purge/close: plain status stores only where the job is exclusively owned, all other transitions compare-and-swap whose attempted transitions (every Load may return any state) go to Closed only from Created/Queued/Finished and to Processing never from Closed; Close result table over 5 states x 6 implementations; closed test precedes every mutation in both Enqueue implementations; Purge closes what it removes. One known finding (Purge = Values()+Purge(), two critical sections).",
+         "Trusts sync/atomic CAS; adapters excluded.",
+         "DESIGN.md §3 C10"),
  "C19": ("context-sensitive static lockset over every struct field of the library (abstract interpretation, CHA, instantiation-aware)",
          "For every struct field reachable from the public API, goroutine bodies and callbacks: never written after publication, or one common lock (writers in write mode), or a listed hand-off whose structural side conditions are re-checked. A static over-approximation of data-race freedom for lock/atomic/channel-hand-off synchronisation; other happens-before idioms are reported, never silently accepted.",
          "Trusts go/types, sync/atomic/channels; internal packages are not user-callable; mocks and user adapters excluded.",
